@@ -6,7 +6,7 @@
    steps <targets> <sched> <faults>   Layer 1: targets = t|t|..., t = op;op;..., op = B:<digest>:<hex.hex chunks>
                                       or R:<key>:<d1.d2>; sched = comma separated thread numbers (rest: in order);
                                       faults = string of 0/1 per step; prints the observation after every prefix
-   guard <local cas keys csv> <remote cas keys csv>   the boolean guard local_sub_remote *)
+   guard <local cas keys csv> <remote cas keys csv>   local_sub_remote: false = the situation of the repaired finding C08-F1 *)
 open Model
 open Wire
 
